@@ -9,9 +9,9 @@ cd $wt || exit 2
 git -C $wt diff -- src > $wt/patch.diff
 echo "== suite with change"; cargo test --offline --lib 2>&1 | grep "test result" | head -2
 echo "== demo with change (must fail)"; cargo test --offline --test demo_$tag 2>&1 | grep "test result\|error\[" | head -3
-git stash push -q -- src
+git checkout -q -- src
 echo "== demo without change (must pass)"; cargo test --offline --test demo_$tag 2>&1 | grep "test result\|error\[" | head -3
-git stash pop -q
+git apply $wt/patch.diff
 cd /verif
 git -C /repo apply $wt/patch.diff || { echo "patch does not apply"; exit 2; }
 for p in "$@"; do ./check $p 2>&1 | grep -v "^KNOWN" | tail -2; done
